@@ -236,12 +236,14 @@ def run(tier, seed, replay=None):
         cmds += ["targeted %d %d" % (k, 2) for k in range(2)]
         cmds += ["random 5000 %d 5" % (seed * 1000 + i) for i in range(shards)]
         cmds += ["vm 4000 %d" % (seed * 1000 + 500 + i) for i in range(4)]
+        cmds += ["big 1500 %d" % (seed * 1000 + 700 + i) for i in range(4)]
     else:
         small_len = 3
         cmds += ["small 3 %d %d" % (k, shards) for k in range(shards)]
         cmds += ["targeted %d %d" % (k, 4) for k in range(4)]
         cmds += ["random 60000 %d 6" % (seed * 1000 + i) for i in range(shards)]
         cmds += ["vm 60000 %d" % (seed * 1000 + 500 + i) for i in range(shards)]
+        cmds += ["big 20000 %d" % (seed * 1000 + 700 + i) for i in range(shards)]
     mism, stats = [], {}
     for i in range(0, len(cmds), NPROC):
         m, s = run_cases(hbin, runner, cmds[i:i + NPROC])
@@ -300,7 +302,10 @@ def run(tier, seed, replay=None):
                 "ops, call limits, inputs with newlines and > 9 lines); enumerated and random `wide choice of rules under nested rules` (0-3 attempts "
                 "already recorded, 1-3 enclosing rules, 2-6 failing rule alternatives, all at one position) and stack-slice matching (2-3 pushed "
                 "literals, stack_match_peek / peek_slice / match_pop as alternative or under optional / repeat / look-ahead, inputs matching every "
-                "prefix of the stack in both orders), the same two families as grammars (PUSH ~ PUSH ~ PEEK_ALL | PEEK[a..b] ...); random grammars of 1-4 rules (all operators, modifiers, PUSH/POP/PEEK, "
+                "prefix of the stack in both orders), the same two families as grammars (PUSH ~ PUSH ~ PEEK_ALL | PEEK[a..b] ...); big choices beyond every capacity / threshold "
+                "constant of the attempt bookkeeping (15-70 alternatives at one position: bare tokens, rules around a token or a sequence, rules around "
+                "nested choices of 2-6 or 15-30 such alternatives two levels deep, rule numbers distinct or folded, 0-2 characters consumed first), each "
+                "tree run as a closure tree (also against the model) and as a grammar through pest_meta + pest_vm; random grammars of 1-4 rules (all operators, modifiers, PUSH/POP/PEEK, "
                 "WHITESPACE) through pest_meta + pest_vm. Compared between the two runs: Ok/Err/panic, final core state, tokens, error "
                 "position/positives/negatives (VM: the whole Debug + Display of the error); on the detail run: max_position <= len and char boundary, "
                 "parse_attempts_error built and rendered under catch_unwind. Compared with the model: final state incl. call stacks/tokens/max_position, "
